@@ -2,7 +2,7 @@
 From Coq Require Import ZArith List.
 From V Require Import Valid.Hier Valid.Walk Valid.FlatRegion Valid.Run.
 From Coq Require Import Lia.
-From V Require Import Model.Pipe Model.PipeBounded Model.PipeBounded4.
+From V Require Import Model.Pipe Model.PipeBounded Model.PipeBounded4 Model.Graph Model.Edits Model.JoinPath.
 
 Theorem C06_checker_sound : forall h, c06_check h = true -> CtrlSafe h.
 Proof. exact c06_check_sound. Qed.
@@ -36,3 +36,10 @@ Proof.
   split; [apply B0|]. split; [apply B1|apply B2].
 Qed.
 Print Assumptions C06_pipeline_model_le4.
+
+(* the first stage, for ALL graphs (no bound): the closed graph reads no control variable and every decision list can be walked to its end *)
+Theorem C06_closing_ctrl_safe :
+  forall g top fresh en g',
+    Input g top fresh -> oentry (og g) = Some en -> join_returns g fresh 3 = Ok g' -> CtrlSafe (ehier top g').
+Proof. exact join_returns_ctrl. Qed.
+Print Assumptions C06_closing_ctrl_safe.
